@@ -30,3 +30,13 @@ claim("C20", "DESIGN.md §3 C20",
       "For all rule sets: only ErrorCheck and RuleDependencyCheck run on removed rules (the latter on nothing else); the dependency check sees the entry list only through nonRemovedEntries (drops removed/path-error/rule-error entries); the replacement test precedes the dependant scan on every path; dependants are de-duplicated and sorted before rendering and a problem needs a non-empty list; checkRules dispatches every check of GetChecksForEntry with the full entry list and skips only removed entries with errors; scanWorker forwards every problem; selector-name comparisons honour {__name__=...}.",
       SA_NOTE,
       "static analysis: Meta() table extraction over all RuleChecker implementers, use-only-through-filter check, must-pass-through and dominance on go/cfg (also inside the dispatch goroutine literal), lexical guard analysis for continue statements")
+
+claim("C14", "DESIGN.md §3 C14",
+      "For every schedule at once: per-key lock dominates every send on the query channel in the five API methods (including sends made by goroutines they start), deferred unlock of the same key on every exit, key covers every distinguishing parameter, partitionLocker waits in a loop and broadcasts after delete; Run only from processJob, processJob only from queryWorker, queryWorker only via `go` in a loop of exactly `concurrency` iterations, HTTP only from doRequest, workers started once per instance; cache looked up before Run, hit short-circuits, set only with nil error, CacheKey covers URI, endpoint and all distinguishing (sub)fields; all guarded fields touched only under their mutex.",
+      SA_NOTE,
+      "static analysis: must-pass-through/dominance on go/cfg, who-may-call over resolved callees, lock-held analysis for a guarded-field table with helper inference, field coverage of hash arguments")
+
+claim("C15", "DESIGN.md §3 C15",
+      "For every fault assignment: the five failover loops range over fg.servers in configured order, move to the next upstream only across the 'unavailable' edge, return errors as is (wrapped) with the group's strictness; classification tables (decodeErrorType identity, IsUnavailableError, 4xx/5xx fallbacks, stream failures) agree with their documented meaning; problemFromError maps unavailability to Warning (Bug only when required) and never to the caller's severity; at all API call sites in internal/checks the result is dereferenced only where err is nil or the result non-nil, and the failure region builds problems only through problemFromError(err).",
+      SA_NOTE,
+      "static analysis: loop-continuation reachability with cut edges on go/cfg, constant table extraction, nil/err dominance at every resolved API call site (helpers that return the API error included)")
